@@ -147,7 +147,11 @@ class VCSAPI:
     def status(self, required_files: typ.Set[str]) -> typ.List[str]:
         """Get status lines."""
         status_output = self('status')
-        status_items  = [line.split(" ", 1) for line in status_output.splitlines()]
+        if self.name == 'git':
+            # porcelain format: two status columns (either may be a blank), a blank, the path
+            status_items = [[line[:2], line[3:]] for line in status_output.splitlines()]
+        else:
+            status_items = [line.split(" ", 1) for line in status_output.splitlines()]
 
         return [
             filepath.strip()
